@@ -5,7 +5,7 @@
 From AF Require Import Proofs.MemFileProof.
 From AF Require Import Lib.Bytes Lib.Path Lib.Ops Gen.Consts Model.MemFile Model.MemFs Model.WfOps Model.Posix
   Proofs.MemFsPath Proofs.MemFsBasics Proofs.MemFsWF Proofs.MemFsStep Proofs.MemFsRename Proofs.MemFsInv
-  Proofs.MemFsNoop Proofs.MemFsList Proofs.MemFsSim Proofs.MemFsSimInv.
+  Proofs.MemFsNoop Proofs.MemFsList Proofs.MemFsSim Proofs.MemFsSimInv Proofs.MemBelow Proofs.MemBelowRefused.
 Local Open Scope Z_scope.
 
 (* 1. The per-directory child index mirrors the path map after every well-formed sequence
@@ -132,6 +132,54 @@ Theorem C01_spelling_irrelevant : forall s o o', same_names o o' -> m_step s o =
 Proof. exact same_names_same_step. Qed.
 Print Assumptions C01_spelling_irrelevant.
 
+(* 7. Nothing is created below a regular file — for EVERY state (no invariant, no precondition) and
+      EVERY name.  nearest_is_file s d (Proofs/MemBelowRefused.v): walking up d, filepath.Dir d,
+      filepath.Dir (filepath.Dir d), ... the first name the path map holds is a regular file.  Then
+      Create, Mkdir, MkdirAll and OpenFile with O_CREATE of the (free) name, and Rename to the name from any
+      other existing name, answer ENOTDIR — what the operating system answers — and nothing but the
+      clock changes (ticked s: same path map, same nodes, same handles).
+      This is the statement that memmap.go's lockfreeBelowFile check buys; it depends on the switch
+      memfs_refuses_below_file = 1 regenerated from the source (C01_below_file_switch, by reflexivity:
+      with the check removed from any of Create, Mkdir, Rename or OpenFile's creating path the constant
+      is 0, that lemma and this theorem no longer compile, and the Go-side oracles of C13 / C18 give the
+      failing input: a regular file that became a directory). *)
+Theorem C01_below_file_switch : memfs_refuses_below_file = 1.
+Proof. exact memfs_refuses_below_file_fact. Qed.
+Print Assumptions C01_below_file_switch.
+
+Theorem C01_below_file_refused : forall s p,
+  let k := normalize_path p in
+  nearest_is_file s (path_dir k) ->
+  (lookup s k = None ->
+     m_step s (Create p) = (ticked s, RErr (EW KENOTDIR)) /\
+     (forall perm, m_step s (Mkdir p perm) = (ticked s, RErr (EW KENOTDIR))) /\
+     (forall perm, m_step s (MkdirAll p perm) = (ticked s, RErr (EW KENOTDIR))) /\
+     (forall flag perm, flag_has flag o_create = true ->
+        m_step s (OpenFile p flag perm) = (ticked s, RErr (EW KENOTDIR)))) /\
+  (forall q, lookup s (normalize_path q) <> None -> normalize_path q <> k ->
+     m_step s (Rename q p) = (ticked s, RErr (EW KENOTDIR))).
+Proof. exact below_file_refused. Qed.
+Print Assumptions C01_below_file_refused.
+
+(* what "ticked" keeps *)
+Theorem C01_ticked_keeps_everything : forall s, fs_view (ticked s) = fs_view s /\ mhandles (ticked s) = mhandles s.
+Proof. exact ticked_view. Qed.
+Print Assumptions C01_ticked_keeps_everything.
+
+(* ... and the check costs the well-formed programs nothing: a call satisfying the POSIX
+   precondition of C01 in a state satisfying the invariant is never refused by it (so theorems 1-6
+   above are about the same calls as before) *)
+Theorem C01_wellformed_never_below_file : forall s,
+  WF s ->
+  (forall k, canon k -> is_dir_at s (par k) = true -> below_file s k = false) /\
+  (forall k, canon k -> prefixes_dirs s k = true -> below_file s k = false) /\
+  (forall k r, lookup s k = Some r -> below_file s k = false).
+Proof.
+  intros s W. split; [intros k Hc Hd; now apply below_file_dir_parent|].
+  split; [intros k Hc Hp; now apply below_file_prefixes_dirs | intros k r Hl; now apply (below_file_existing s k r)].
+Qed.
+Print Assumptions C01_wellformed_never_below_file.
+
 (* ---------- non-vacuity ---------- *)
 Local Open Scope N_scope.
 Definition c01_demo : list op :=
@@ -197,6 +245,22 @@ Example C01_ex_sim : wf_seq_sim m_init c01_demo = true /\ wf_seq_sim m_init c01_
   [ PSucc; PHandle 0; PHandle 1; PSucc; PHandle 2; PNames [[97];[98]] false; PNames [[99]] false; PNames [] true;
     PHandle 3; PNames [[97];[98];[99]] false ].
 Proof. vm_compute. auto. Qed.
+
+(* below the regular file /a/f of the demo state (content "\007\008"): every creating call is refused
+   with ENOTDIR — directly below it, two levels below it, and Rename into it — and /a/f is still that file *)
+Example C01_ex_below_file :
+  nearest_is_file c01_demo2 (path_dir [47;97;47;102;47;120]) /\           (* /a/f/x   : parent is the file *)
+  nearest_is_file c01_demo2 (path_dir [47;97;47;102;47;120;47;121]) /\     (* /a/f/x/y : /a/f/x is missing *)
+  map (fun o => (snd (m_step c01_demo2 o), entry_at (fst (m_step c01_demo2 o)) [47;97;47;102]))
+    [Create [47;97;47;102;47;120]; Mkdir [47;97;47;102;47;120] 493%Z; MkdirAll [47;97;47;102;47;120;47;121] 493%Z;
+     OpenFile [47;97;47;102;47;120] (Z.lor o_create o_rdwr) 420%Z; Rename [47;97;47;98] [47;97;47;102;47;122];
+     Create [47;97;47;102;47;46;47;120;47;121]]
+  = repeat (RErr (EW KENOTDIR), Some (false, [7;8], mode_temporary, (BIG + 3)%Z)) 6.
+Proof.
+  split; [eapply nif_here; vm_compute; reflexivity|].
+  split; [apply nif_up; [vm_compute; reflexivity|]; eapply nif_here; vm_compute; reflexivity|].
+  vm_compute. reflexivity.
+Qed.
 
 Example C01_ex_spelling : same_names (Mkdir [47;47;120;47] 448%Z) (Mkdir [47;120] 448%Z) /\
   same_names (Rename [47;97;47;46;47;98] [47;120;47;46;46;47;121]) (Rename [47;97;47;98] [47;121]).
